@@ -246,6 +246,78 @@ with a non-unit weight `Gamma.diff2Loss` mixes the weighted residual with the un
 theorem gamma_diff2_weighted_remark : Gen.Gamma_diff2Loss 1 1 1 2 ≠ 2 * Gen.Gamma_diff2Loss 1 1 1 1 := by
   unfold Gen.Gamma_diff2Loss; norm_num
 
+/-! ### sessions: several calls, several objects
+
+The model of a kernel object is its per-observation data and nothing else - no memo, no buffer, no class-level table.
+A call is therefore a function of (the object's data, the method, the prediction vector) alone.  The statements below
+spell out what that means for a *sequence* of calls on several live objects; they are immediate for the model (that is
+the point: the model has no state a call could leave behind).  Whether the real Python objects behave like this model
+is what the session probes of harness/props/c14.py test directly (one buffer object refilled in place between calls,
+sibling objects of the same class evaluated in between, results kept and re-compared, containers compared afterwards). -/
+
+/-- the data of one observation, fixed when the object is built: observation, spread, weight -/
+structure Obs where
+  y : ℝ
+  s : ℝ
+  w : ℝ
+
+/-- a kernel object as the model has it -/
+abbrev Kernel := List Obs
+
+/-- one call: which live object, which per-observation method (a generated `Gen.X_loss`, `Gen.X_diff_loss`,
+`Gen.X_diff2Loss`, weighted or raw, as a function of `y yhat spread w`), at which predictions -/
+structure Call where
+  obj : ℕ
+  meth : ℝ → ℝ → ℝ → ℝ → ℝ
+  yhat : List ℝ
+
+/-- the per-observation values a call returns (`loss` is their sum) -/
+noncomputable def evalCall (objs : List Kernel) (c : Call) : List ℝ :=
+  List.zipWith (fun o m => c.meth o.y m o.s o.w) (objs.getD c.obj []) c.yhat
+
+/-- the results of a sequence of calls, in order -/
+noncomputable def session (objs : List Kernel) : List Call → List (List ℝ)
+  | [] => []
+  | c :: cs => evalCall objs c :: session objs cs
+
+/-- **session_is_pure.**  The i-th result of any session is the value of the i-th call evaluated on its own: nothing that
+was called before it (other predictions through the same buffer, other methods, other objects) enters. -/
+theorem session_is_pure (objs : List Kernel) (cs : List Call) : session objs cs = cs.map (evalCall objs) := by
+  induction cs with
+  | nil => rfl
+  | cons c cs ih => simp only [session, List.map_cons, ih]
+
+/-- **earlier_results_kept.**  Continuing a session does not change what it has already returned. -/
+theorem earlier_results_kept (objs : List Kernel) (cs more : List Call) :
+    session objs (cs ++ more) = session objs cs ++ session objs more := by
+  simp only [session_is_pure, List.map_append]
+
+/-- **repeat_reproduces.**  The same call made again later - whatever happened in between - returns the same values. -/
+theorem repeat_reproduces (objs : List Kernel) (pre mid post : List Call) (c : Call) :
+    (session objs (pre ++ c :: mid ++ c :: post))[pre.length]? = some (evalCall objs c)
+    ∧ (session objs (pre ++ c :: mid ++ c :: post))[pre.length + 1 + mid.length]? = some (evalCall objs c) := by
+  simp only [session_is_pure, List.map_append, List.map_cons, List.append_assoc]
+  constructor
+  · rw [List.getElem?_append_right (by simp)]
+    simp
+  · rw [List.getElem?_append_right (by simp; omega)]
+    simp only [List.length_map]
+    rw [show pre.length + 1 + mid.length - pre.length = (mid.length + 1) by omega]
+    show (evalCall objs c :: (List.map (evalCall objs) mid ++ evalCall objs c :: List.map (evalCall objs) post))[mid.length + 1]? = _
+    rw [List.getElem?_cons_succ, List.getElem?_append_right (by simp)]
+    simp
+
+/-- **objects_do_not_interact.**  A call on one object is unaffected by which other objects are alive and by their data. -/
+theorem objects_do_not_interact (objs objs' : List Kernel) (c : Call)
+    (h : objs.getD c.obj [] = objs'.getD c.obj []) : evalCall objs c = evalCall objs' c := by
+  simp only [evalCall, h]
+
+/-- non-vacuity / reading aid: a Normal `diff_loss` evaluated at A, at B and at A again returns its first value again -/
+example (o : Kernel) (A B : List ℝ) :
+    let c := fun yh => (⟨0, Gen.Normal_diff_loss, yh⟩ : Call)
+    (session [o] [c A, c B, c A])[0]? = (session [o] [c A, c B, c A])[2]? := by
+  simp [session]
+
 /-- non-vacuity: the hypotheses of the theorems above are satisfiable (y = 3, yhat = 2, spread = 1/2) -/
 example : ∃ (n : ℕ) (yhat k : ℝ), 0 < yhat ∧ 0 < k ∧
     Gen.NegBinom_loss n yhat k 1 = -Real.log (Spec.nbPMF k yhat n)
